@@ -11,6 +11,7 @@ def parseLabel? (tok : String) : Option (Nat × Label) :=
   | [t, "rdFlag", b] => do pure ((← t.toNat?), Label.rdFlag (← parseBool? b))
   | [t, "rdMutex", "N"] => t.toNat?.map (·, Label.rdMutex none)
   | [t, "rdMutex", m] => do pure ((← t.toNat?), Label.rdMutex (some (← m.toNat?)))
+  | [t, "rdMutexRet", m] => do pure ((← t.toNat?), Label.rdMutexRet (← m.toNat?))
   | [t, "mk", m] => do pure ((← t.toNat?), Label.mk (← m.toNat?))
   | [t, "asg"] => t.toNat?.map (·, Label.asg)
   | [t, "init", m] => do pure ((← t.toNat?), Label.init (← m.toNat?))
